@@ -346,41 +346,68 @@ theorem decode_all_total (c : DecodeCfg) (base : Nat) (bs : Bytes)
 
 /-! ## 6. instruction decoding against the encoding tables of the standard -/
 
-/-- **Every standard encoding is decoded to the instruction it denotes**, with exact consumption:
-if `bs` encodes `i` according to the opcode/operand tables of DWARF §6.4.2/§7.24 (`Spec.Cfi.Encodes`:
-the three primary opcodes, every extended opcode with unsigned / signed LEB128, fixed-size, block
-and register operands — any LEB128 padding up to 10 bytes — `GNU_args_size`, and
-`AARCH64_negate_ra_state` for an AArch64 consumer), then `CallFrameInstruction::parse` on `bs`
-followed by anything returns `i` and leaves exactly what followed.
-*Partial*: `DW_CFA_set_loc` is covered for the plain address operand only (`address_encoding =
-None`: CIE programs, `.debug_frame`, `.eh_frame` CIEs without `R`); its operand under a
-`DW_EH_PE` pointer encoding is C05's `parse_encoded_pointer` and is tied differentially. -/
-theorem decode_complete_partial (m : Mode) (e : Endian) (asz : Nat) (aarch64 : Bool) (p : PtrParams)
-    (i : Instr) (bs : Bytes) (h : Spec.Cfi.Encodes e asz aarch64 i bs) (pos : Nat) (rest : Bytes) :
-    parse (Spec.Cfi.cfgOf m e asz aarch64 p) pos (bs ++ rest) = .ok (i, rest) :=
-  Spec.Cfi.parse_encodes h pos rest
+/-- **Every standard encoding is decoded to the instruction it denotes**, with exact consumption —
+for EVERY opcode: if `bs`, at section offset `pos`, encodes `i` according to the opcode/operand
+tables of DWARF §6.4.2/§7.24 and, for `DW_CFA_set_loc` under an FDE pointer encoding, the LSB
+pointer-encoding rules in C05's Spec (`Spec.Cfi.Encodes`: the three primary opcodes, every
+extended opcode with unsigned / signed LEB128, fixed-size, block, register and address operands —
+any LEB128 padding up to 10 bytes —, `set_loc` as a plain address or as base + operand in any
+defined `DW_EH_PE` format/application, `GNU_args_size`, and `AARCH64_negate_ra_state` for an
+AArch64 consumer), then `CallFrameInstruction::parse` on `bs` followed by anything returns `i`
+and leaves exactly what followed.  Every configuration `c` (byte order, address size, vendor,
+bases, pointer encoding, arithmetic mode). -/
+theorem decode_complete (c : DecodeCfg) (pos : Nat) (i : Instr) (bs : Bytes)
+    (h : Spec.Cfi.Encodes c pos i bs) (rest : Bytes) :
+    parse c pos (bs ++ rest) = .ok (i, rest) :=
+  Spec.Cfi.parse_encodes h rest
 
-/-- **Whatever `parse` accepts is an encoding from the tables**: if `CallFrameInstruction::parse`
-(no `DW_EH_PE` pointer encoding in force) returns `(i, rest)`, then the consumed prefix is an
-encoding of `i` per DWARF §6.4.2/§7.24 — opcode, operand kinds, LEB128 well-formedness and range,
-register numbers ≤ 0xffff, block lengths, address size ∈ {1,2,4,8} for `set_loc`, AArch64 vendor
-for `negate_ra_state`.  Together with `decode_complete_partial`: `parse` accepts exactly the
-encodings of the tables and decodes each to the instruction it denotes.
-*Partial* for the same single reason as `decode_complete_partial`. -/
-theorem decode_sound_partial (m : Mode) (e : Endian) (asz : Nat) (aarch64 : Bool) (p : PtrParams) (pos : Nat)
-    (bs : Bytes) (i : Instr) (rest : Bytes)
-    (h : parse (Spec.Cfi.cfgOf m e asz aarch64 p) pos bs = .ok (i, rest)) :
-    ∃ pre, bs = pre ++ rest ∧ Spec.Cfi.Encodes e asz aarch64 i pre :=
-  Spec.Cfi.parse_sound h
+/-- **Whatever `parse` accepts is an encoding from the tables**, for every opcode and every
+configuration: if `CallFrameInstruction::parse` returns `(i, rest)`, then the consumed prefix is an
+encoding of `i` — opcode, operand kinds, LEB128 well-formedness and range, register numbers
+≤ 0xffff, block lengths, address size ∈ {1,2,4,8} for a plain `set_loc`; for an encoded `set_loc`
+a defined, non-`omit`, non-`aligned`, non-`indirect` encoding whose base is available, and the
+address is base + operand modulo the address size; AArch64 vendor for `negate_ra_state`.
+Together with `decode_complete`: `parse` accepts exactly the encodings of the tables and decodes
+each to the instruction it denotes.  (Hypothesis: when a pointer encoding is in force the address
+size is 1..8 — outside that range `u64::ones_sized` overflows its `u8` arithmetic, see
+`Cfi.onesSized`.) -/
+theorem decode_sound (c : DecodeCfg) (pos : Nat) (bs : Bytes) (i : Instr) (rest : Bytes)
+    (hsz : c.addressEncoding ≠ none → 1 ≤ c.params.addressSize ∧ c.params.addressSize ≤ 8)
+    (h : parse c pos bs = .ok (i, rest)) :
+    ∃ pre, bs = pre ++ rest ∧ Spec.Cfi.Encodes c pos i pre :=
+  Spec.Cfi.parse_sound hsz h
 
-/-- the hypothesis is satisfiable: `DW_CFA_def_cfa r7, 8` and a padded `DW_CFA_offset_extended` -/
-example : Spec.Cfi.Encodes .little 8 false (.defCfa 7 8) [0x0c, 0x07, 0x08] :=
+/-- **The `set_loc` operand is decoded by C05's `parse_encoded_pointer`**: the pointer decoding
+inside the Model of `CallFrameInstruction::parse` equals C05's Model `CfiEntry.parseEncodedPointer`
+(run at the operand's section offset with the iterator's parameters: the `.eh_frame` bases, the
+CIE's address size, no function base) followed by `Pointer::direct` — for every encoding byte,
+address size and mode, including the overflowing ones.  So C05's theorems about
+`parse_encoded_pointer` (`encoded_pointer_decode`, `encoded_pointer_total`, the round trips) are
+theorems about `set_loc`. -/
+theorem set_loc_pointer_is_c05 (m : Mode) (e : Endian) (enc : Nat) (c : DecodeCfg) (pos : Nat) (bs : Bytes) :
+    parseEncodedPointerDirect m e enc c.params pos bs =
+      (CfiEntry.parseEncodedPointer m e enc (Spec.Cfi.peParams c) ⟨pos, bs⟩ >>= fun x =>
+        x.1.toDirect >>= fun a => pure (a, x.2.bs)) :=
+  Spec.Cfi.parseEncodedPointerDirect_eq m e enc c pos bs
+
+/-- the operand relation of the encoding table contains everything C05's Spec encoder
+`Frame.encodeOperand` emits (and additionally `sleb128` and padded LEB128 operands) -/
+theorem set_loc_operand_covers_c05_encoder (e : Endian) (enc asz x : Nat) (bytes : Bytes)
+    (h : Spec.Frame.encodeOperand e enc asz x = some bytes) : Spec.Cfi.Operand e asz enc x bytes :=
+  Spec.Cfi.operand_of_encodeOperand h
+
+/-- the hypotheses are satisfiable: `DW_CFA_def_cfa r7, 8`, a signed operand, a padded
+`DW_CFA_offset_extended`, and a pc-relative `set_loc` (`DW_EH_PE_pcrel | sdata4`, section at
+0x1000, instruction at offset 0x20: operand −4 at 0x1021 gives 0x101d) -/
+example (c : DecodeCfg) : Spec.Cfi.Encodes c 0 (.defCfa 7 8) [0x0c, 0x07, 0x08] :=
   .defCfa 7 8 [0x07] [0x08] (by unfold Spec.Cfi.RegEnc Spec.Cfi.ULeb; decide) (by unfold Spec.Cfi.ULeb; decide)
-example : Spec.Cfi.Encodes .little 8 false (.defCfaOffsetSf (-2)) [0x13, 0x7e] :=
+example (c : DecodeCfg) : Spec.Cfi.Encodes c 0 (.defCfaOffsetSf (-2)) [0x13, 0x7e] :=
   .defCfaOffsetSf (-2) [0x7e] (by unfold Spec.Cfi.SLeb; decide)
-example : Spec.Cfi.Encodes .little 8 false (.offset 300 2) [0x05, 0xac, 0x02, 0x82, 0x00] :=
+example (c : DecodeCfg) : Spec.Cfi.Encodes c 0 (.offset 300 2) [0x05, 0xac, 0x02, 0x82, 0x00] :=
   .offsetExtended 300 2 [0xac, 0x02] [0x82, 0x00] (by unfold Spec.Cfi.RegEnc Spec.Cfi.ULeb; decide)
     (by unfold Spec.Cfi.ULeb; decide)
+example : parse { params := { addressSize := 8, sectionBase := some 0x1000 }, addressEncoding := some 0x1b } 0x20
+    [0x01, 0xfc, 0xff, 0xff, 0xff, 0x41] = .ok (.setLoc 0x101d, [0x41]) := by decide
 
 /-! ## non-vacuity: the hypotheses hold for gimli's default configuration, and every outcome
 class is reachable -/
